@@ -192,7 +192,11 @@ theorem fresh_line (n : Nat) (l : Bytes) (hl : LF ∉ l) :
   · rw [h2]
     have nb := not_both l
     simp only [pendX, pendZ, fresh, hopBit, isHop, List.drop_zero, pmX_eq, pmZ_eq]
-    cases hx : startsCI kwReceived l <;> cases hz : startsCI kwDelivered l <;> simp_all
+    by_cases hx : startsCI kwReceived l = true <;> by_cases hz : startsCI kwDelivered l = true
+    · exact absurd ⟨hx, hz⟩ nb
+    · simp [hx, hz]
+    · simp [hx, hz]
+    · simp [hx, hz]
   · cases l with
     | nil => simp [fresh]
     | cons c cs =>
